@@ -1,6 +1,7 @@
 package sim
 
 import (
+	"encoding/json"
 	"fmt"
 	"io"
 	"log"
@@ -26,9 +27,20 @@ type OpCtx struct {
 	OrderDecisions int    // permutations of ≥2 keys handed out
 	OrderHash      uint64 // running hash of them (distinct-interleavings measure)
 
+	// Loader serves the package-level spec.PathLoader while this operation runs.
+	Loader func(string) (json.RawMessage, error)
+
 	arrivals map[string]int
 	noYield  int
 }
+
+// CurCtx returns the context of the operation executing on the calling goroutine.
+//
+//go:norace
+func CurCtx() *OpCtx { return cur() }
+
+// ClassifyPanic fills an Outcome from a recovered panic value.
+func ClassifyPanic(r interface{}, out *Outcome) { classifyPanic(r, out) }
 
 // BudgetExceeded is the sentinel panic raised by the step counter.
 type BudgetExceeded struct{ Steps int64 }
